@@ -56,6 +56,10 @@ func WriteReplay(vdir, prop string, h *Harness, v *Violation) (string, error) {
 		doc.NativeOK = false
 		doc.Why = "harness replaces callees by engine stubs"
 	}
+	if h.EnvStepName != "" {
+		doc.NativeOK = false
+		doc.Why = "harness uses an interference step between atomic operations"
+	}
 	name := unsafeName.ReplaceAllString(fmt.Sprintf("%s-%s-%s", prop, h.Entry, v.ID), "_")
 	if len(name) > 150 {
 		name = name[:150]
